@@ -438,6 +438,8 @@ def deep_chains(ctx: Ctx, depths: List[int]) -> dict:
     routes = self_recursive_routes(sub.model)
     n = 0
     deepest = 0
+    too_large: List[Any] = []
+    import hypothesis.errors
     for name, unit in routes:
         root = ("struct", name)
         for d in depths:
@@ -448,8 +450,11 @@ def deep_chains(ctx: Ctx, depths: List[int]) -> dict:
                 deepest = max(deepest, d)
                 for f in body(sub, root, tv):
                     ctx.finding((f[0], f[1], f"nested-{d}-deep"), f[3], {"root": list(root), "json": erase(tv), "tv": tvgen.to_json(tv), "extra": None})
-            mini(tvgen.value_strategy(sub.objects, root, tvgen.GenCfg(route=unit * d, max_depth=3, max_nodes=150)), 2, (ctx.seed, "C01deep", name, unit[0], d), one)
-    return {"self_recursive_positions": [f"{a}: {' > '.join(u)}" for a, u in routes][:12], "cases": n, "depths": depths}
+            try:
+                mini(tvgen.value_strategy(sub.objects, root, tvgen.GenCfg(route=unit * d, max_depth=3, max_nodes=150)), 2, (ctx.seed, "C01deep", name, unit[0], d), one)
+            except hypothesis.errors.Unsatisfiable:
+                too_large.append([name, d])   # the generator's own size limit, not the package's
+    return {"self_recursive_positions": [f"{a}: {' > '.join(u)}" for a, u in routes][:12], "cases": n, "depths": depths, "beyond_generator_size": too_large}
 
 
 def run(ctx: Ctx) -> None:
